@@ -9,7 +9,7 @@ import numpy as np
 
 from apihist import World, run_histories
 
-UNITS = ["Orders", "SolverStruct", "ShapesSolvers", "ShapesBasis", "ShapesApi", "SkelBasis", "SkelSolvers", "SkelApi"]
+UNITS = ["Orders", "SolverStruct", "ShapesSolvers", "ShapesBasis", "ShapesApi", "SkelBasis", "SkelSolvers", "SkelApi", "Tables", "IndepGen", "ShapesCombos", "ShapesPerm", "ShapesCoset", "ShapesSumRule", "ShapesSpg", "ShapesReps", "ShapesO1", "ShapesAuxO1", "ShapesAuxEig", "ShapesAuxBatch", "EigStruct", "CutoffGen", "ShapesGeom", "ShapesAuxCut", "SkelSpg", "SkelEig", "SkelMat", "SkelPerm", "SkelIdx", "SkelCut"]
 PROPS = ["props/C12.v"]
 EXTRA = ["theories/ApiTrace.vo"]
 ASSUMPTIONS = ["numpy aliasing itself is trusted through the translated structure facts and the hash correspondence",
